@@ -294,11 +294,18 @@ def main():
         lam = float(rng.uniform(10, 80))
         tau = float(rng.uniform(40, 150))
         ta = qr.TimeAxis(0.0, 1000, 1.0)
-        for withT in (False, True):
+        for withT in (False, True, "underdamped"):
             rp = dict(kind="spectral-density", reorg=lam, cortime=tau,
                       T_in_params=withT)
             with ck.guarded("spectral-density", "sd", rp, rp):
                 p = dict(ftype="OverdampedBrownian", reorg=lam, cortime=tau)
+                if withT == "underdamped":
+                    # another bath model: detailed balance does not depend
+                    # on the shape of the spectral density
+                    p = dict(ftype="UnderdampedBrownian", reorg=lam,
+                             freq=float(rng.uniform(150, 500)),
+                             gamma=1.0 / tau)
+                    withT = False
                 if withT:
                     p["T"] = 300.0
                 with qr.energy_units("1/cm"):
@@ -308,8 +315,9 @@ def main():
                 n = len(w)
                 odd = float(numpy.abs(d[1:] + d[1:][::-1]).max()) / float(
                     numpy.abs(d).max())
-                ck.case("spectral-density-odd", (s, withT))
-                if odd > 1e-8:
+                ck.case("spectral-density-odd", (s, withT, p["ftype"]))
+                if odd > (1e-8 if p["ftype"] == "OverdampedBrownian"
+                          else 1e-6):
                     ck.violation("spectral-density-odd", "sd",
                                  dict(rp, err=odd), rp)
                 # the SAME object evaluated at a sequence of temperatures
@@ -331,7 +339,7 @@ def main():
                             continue      # 1 - coth loses all digits there
                         want = math.exp(-x) * c[i]
                         worst = max(worst, abs(c[j] - want) / abs(want))
-                    ck.case("ft-detailed-balance", (s, withT, Tq),
+                    ck.case("ft-detailed-balance", (s, withT, Tq, p["ftype"]),
                             sample=dict(rp, T=Tq, err=worst))
                     if worst > 1e-9:
                         ck.violation("ft-detailed-balance",
